@@ -396,6 +396,10 @@ func (e *Engine) localMods(fn *ssa.Function) (map[string]bool, []*ssa.Function, 
 						e.confinedMods(con, f.Params, c.Args, mods)
 						continue
 					}
+					if isExternNoContract(e, f) {
+						externArgHeaps(c, mods, true)
+						continue
+					}
 					callees = append(callees, f)
 				case *ssa.MakeClosure:
 					callees = append(callees, f.Fn.(*ssa.Function))
@@ -674,6 +678,29 @@ func rootIsLocal(v ssa.Value, seen map[ssa.Value]bool) bool {
 				}
 			}
 		}
+	case *ssa.UnOp:
+		// a load from a local variable cell (a variable captured by a closure lives in such a cell): the value is
+		// whatever the nearest preceding store in the same block put there, provided no closure writes the cell
+		if x.Op.String() != "*" {
+			return false
+		}
+		cell, ok := x.X.(*ssa.Alloc)
+		if !ok || cellWrittenByClosure(cell) {
+			return false
+		}
+		b := x.Block()
+		at := -1
+		for i, in := range b.Instrs {
+			if in == ssa.Instruction(x) {
+				at = i
+			}
+		}
+		for i := at - 1; i >= 0; i-- {
+			if st, ok := b.Instrs[i].(*ssa.Store); ok && st.Addr == ssa.Value(cell) {
+				return rootIsLocal(st.Val, seen)
+			}
+		}
+		return false
 	case *ssa.TypeAssert:
 		return rootIsLocal(x.X, seen)
 	case *ssa.MakeInterface:
@@ -789,4 +816,80 @@ func (e *Engine) confinedIface(con *Contract, c *ssa.CallCommon, args []ssa.Valu
 func isNilRefConst(v ssa.Value) bool {
 	c, ok := v.(*ssa.Const)
 	return ok && c.IsNil()
+}
+
+// externArgHeaps: a library function without a contract may write through the pointers, slices and maps it
+// is handed (directly or boxed in an interface at the call site).  Interface and function values of unknown
+// dynamic type are not followed (listed assumption).
+func externArgHeaps(c *ssa.CallCommon, into map[string]bool, skipLocal bool) {
+	var add func(v ssa.Value, depth int)
+	add = func(v ssa.Value, depth int) {
+		if depth > 3 || isNilRefConst(v) {
+			return
+		}
+		if skipLocal && rootIsLocalAlloc(v, 0) {
+			return
+		}
+		switch t := v.Type().Underlying().(type) {
+		case *types.Pointer:
+			et := t.Elem()
+			addTypeHeaps("M."+typeName(et), et, into)
+		case *types.Slice:
+			if _, isStr := t.Elem().Underlying().(*types.Basic); isStr || true {
+				addTypeHeaps("A."+typeName(t.Elem()), t.Elem(), into)
+			}
+		case *types.Map:
+			into["MS."+typeName(v.Type())] = true
+		case *types.Interface:
+			if mi, ok := v.(*ssa.MakeInterface); ok {
+				add(mi.X, depth+1)
+			}
+		}
+	}
+	for _, a := range c.Args {
+		add(a, 0)
+	}
+}
+
+func isExternNoContract(e *Engine, f *ssa.Function) bool {
+	inRepo := f.Pkg != nil && strings.HasPrefix(f.Pkg.Pkg.Path(), dnsPath) || (f.Pkg == nil && f.Origin() != nil && f.Origin().Pkg != nil && strings.HasPrefix(f.Origin().Pkg.Pkg.Path(), dnsPath))
+	if f.Parent() != nil || (f.Pkg == nil && f.Synthetic != "" && f.Origin() == nil) {
+		inRepo = true // closures and wrappers belong to the code that mentions them
+	}
+	if inRepo && len(f.Blocks) > 0 {
+		return false
+	}
+	return e.contractFor(f) == nil
+}
+
+// cellWrittenByClosure: some closure capturing the variable cell stores into it.
+func cellWrittenByClosure(cell *ssa.Alloc) bool {
+	refs := cell.Referrers()
+	if refs == nil {
+		return false
+	}
+	for _, r := range *refs {
+		mc, ok := r.(*ssa.MakeClosure)
+		if !ok {
+			continue
+		}
+		fn := mc.Fn.(*ssa.Function)
+		for bi, b := range mc.Bindings {
+			if b != ssa.Value(cell) || bi >= len(fn.FreeVars) {
+				continue
+			}
+			fv := fn.FreeVars[bi]
+			if fr := fv.Referrers(); fr != nil {
+				for _, u := range *fr {
+					if st, ok := u.(*ssa.Store); ok && st.Addr == ssa.Value(fv) {
+						return true
+					}
+					if _, ok := u.(*ssa.MakeClosure); ok {
+						return true // passed on to a nested closure: give up
+					}
+				}
+			}
+		}
+	}
+	return false
 }
